@@ -48,7 +48,8 @@ ASSUMPTIONS = [
 BOUNDS = {
     'quick': 'optimisation levels 1-3; circuits of <=3 operations (CNOT, CZ, U3 with distinct parameters, H, a 3-qubit CCX, '
              'barrier, trailing measurement) on 2-3 logical qubits; models: every connected coupling graph on 3 vertices and '
-             'lines/stars/rings on 4; machine wider than the circuit by 0-1',
+             'lines/stars/rings on 4; machine wider than the circuit by 0-1; list input: compile([A, B], with_mapping=True) with '
+             'two CNOTs at symbolic locations in each input on the 3-qubit line, every entry judged against its own input',
     'thorough': 'levels 1-3, <=4 operations, <=4 logical / 5 physical qubits, every connected graph on <=4 vertices + line/'
                 'ring/star on 5, error_threshold set/unset, max_synthesis_size 2-3',
 }
@@ -219,7 +220,7 @@ def judge(inp: Any, model: Any, result: Any, measure: list) -> str | None:
 
 
 def run_compile(n: int, ops: list, measure: list, m: int, edges: list, level: int, opts: dict,
-                gate_set: Any = None) -> Any:
+                gate_set: Any = None, batch: Any = None) -> Any:
     """Runs the real bqskit.compile inside the E3 simulator (one worker, baseline schedule)."""
     from bqskit.compiler.compile import compile as bq_compile
     from bqskit.compiler.machine import MachineModel
@@ -231,12 +232,17 @@ def run_compile(n: int, ops: list, measure: list, m: int, edges: list, level: in
     del _FOREACH_CTX[:]
     RuntimeTask.task_counter = 0
     inp = build_circuit(n, ops, measure)
+    others = [build_circuit(n2, ops2, []) for (n2, ops2) in (batch or [])]
     model = MachineModel(m, CouplingGraph(edges, m)) if gate_set is None else \
         MachineModel(m, CouplingGraph(edges, m), gate_set)
     w = flat_world(Schedule({}, {}), 1, 1, 'detached', 200000)
 
     def script(c: Any) -> Any:
         try:
+            if batch is not None:
+                # list input: one (circuit, initial mapping, final mapping) per input, in input order
+                return ('ok', bq_compile([inp.copy()] + [o.copy() for o in others], model, optimization_level=level,
+                                         compiler=c, with_mapping=True, seed=7, **opts), others)
             return ('ok', bq_compile(inp.copy(), model, optimization_level=level, compiler=c, with_mapping=True,
                                      seed=7, **opts))
         except Exception as e:  # noqa
@@ -339,6 +345,53 @@ def wf(g0: int, a0: int, b0: int, c0: int, g1: int, a1: int, b1: int, c1: int, g
     return True
 
 
+def _loc2(n: int, a: int, b: int) -> list:
+    qa = rt.P(a, 0, n - 1)
+    qb = rt.P(b, 0, n - 2)
+    return [qa, qb if qb < qa else qb + 1]
+
+
+def wfbatch(a0: int, b0: int, a1: int, b1: int, c0: int, d0: int, c1: int, d1: int, e0: int, f0: int, k: int) -> bool:
+    """
+    post: _
+    """
+    rt.begin()
+    S = rt.SHARD
+    n, m, level = S['n'], S['m'], S['level']
+    edges = [tuple(e) for e in S['fixed_edges']]
+    nin = S.get('inputs', 2)
+    # input 0: a CNOT at a symbolic location, a U3, CNOT(0,1) (thorough: second CNOT symbolic too); input 1: a CNOT at a symbolic location, then CNOT(1,2);
+    # an optional third input with one CNOT. `pin` (shard) fixes the first control so that shards stay small.
+    pin = S.get('pin')
+    la = _loc2(n, pin if pin is not None else a0, b0)
+    opsA = [('cx', la), ('u3', [0]), ('cx', _loc2(n, a1, b1) if S.get('second_symbolic') else [0, 1])]
+    opsB = [('cx', _loc2(n, c0, d0)), ('cx', [1, 2])]
+    batch = [(n, opsB)]
+    if nin >= 3:
+        batch.append((n, [('cx', _loc2(n, e0, f0))]))
+    inp, model, reason, res, errs = rt.nt(run_compile, n, opsA, [], m, edges, level, dict(S.get('opts', {})), None, batch)
+    rt.reach()
+    if rt.CONCRETE:
+        rt.log('inputs', repr(inp), [b for b in batch], 'model width', m, 'edges', edges, 'level', level)
+        rt.log('sim', reason, 'errors', errs)
+        rt.log('result', repr(res)[:1500])
+    if reason != 'quiescent' or errs:
+        return rt.fail('runtime-did-not-finish')
+    if res is None or res[0] != 'ok':
+        return rt.fail('batch:compile-raised')
+    outs, others = res[1], res[2]
+    ins = [inp] + list(others)
+    if not isinstance(outs, list) or len(outs) != len(ins):
+        return rt.fail('batch:one-result-per-input')
+    for i, (ci, out) in enumerate(zip(ins, outs)):
+        fp = rt.nt(judge, ci, model, out, [])
+        if fp is not None:
+            if rt.CONCRETE:
+                rt.log('entry', i, 'of the batch:', fp)
+            return rt.fail('batch:entry-%s:%s' % ('last' if i == len(ins) - 1 else 'not-last', fp))
+    return True
+
+
 def obligations(tier: str) -> list[dict]:
     obs = []
 
@@ -354,7 +407,16 @@ def obligations(tier: str) -> list[dict]:
         ob('L1/n3m4/ccx/line', 280, n=3, m=4, nops=1, level=1, gates=['ccx'], fixed_edges=[[0, 1], [1, 2], [2, 3]])
         ob('L3/n2m3/ops2', 280, n=2, m=3, nops=2, level=3, gates=['cx', 'u3'])
         ob('L3/n3m3/ops2/line', 280, n=3, m=3, nops=2, level=3, gates=['cx'], fixed_edges=[[0, 1], [1, 2]])
+        for pin in (0, 1, 2):
+            obs.append({'name': 'batch/L1/n3m3/2-inputs/line/first-control-%d' % pin, 'func': 'wfbatch', 'timeout': 280,
+                        'shard': {'n': 3, 'm': 3, 'level': 1, 'fixed_edges': [[0, 1], [1, 2]], 'inputs': 2, 'pin': pin}})
     else:
+        for level in (1, 2):
+            obs.append({'name': 'batch/L%d/n3m4/3-inputs/line' % level, 'func': 'wfbatch', 'timeout': 3000,
+                        'shard': {'n': 3, 'm': 4, 'level': level, 'fixed_edges': [[0, 1], [1, 2], [2, 3]], 'inputs': 3,
+                                  'second_symbolic': True}})
+        obs.append({'name': 'batch/L1/n3m3/2-inputs/line', 'func': 'wfbatch', 'timeout': 3000,
+                    'shard': {'n': 3, 'm': 3, 'level': 1, 'fixed_edges': [[0, 1], [1, 2]], 'inputs': 2}})
         for level in (1, 2, 3):
             ob('L%d/n2m3/ops3' % level, 3000, n=2, m=3, nops=3, level=level, gates=['cx', 'u3', 'cz', 'barrier'])
             ob('L%d/n3m3/ops3/measure' % level, 3000, n=3, m=3, nops=3, level=level, gates=['cx', 'u3', 'h'], measure=True)
